@@ -227,3 +227,6 @@ def run(db, ctx):
                        'all rows and all C columns, with the position it stands for (shared with R7.5)', ['R7.5'])
     common.shared_rule(db, ctx, C04.stripe_rules, 'R3.11', 'the striped matrix Scanner::max scores is the sequence (shared with R4.1 - R4.4; seed C03-9 swapped two rows of the AVX2 transposition)',
                        ['R4.1', 'R4.2', 'R4.3', 'R4.4'])
+    from . import C01
+    common.shared_rule(db, ctx, C01.r111, 'R3.12', 'StripedScores::resize stores max_index as given (the scanner bounds candidates by it while scoring one block of rows at a time) '
+                       '— shared with R1.11', ['R1.11'])
